@@ -902,7 +902,7 @@ func checkC11(p *core.Program, r *core.Report) {
 						containsWriter[f] = true
 						return true
 					}
-					if len(sc.Blocks) > 0 && core.InRepo(pkgPathOf(sc)) && sc.Pkg == act.Pkg && hasWriter(sc, depth+1) {
+					if len(sc.Blocks) > 0 && core.InRepo(pkgPathOf(sc)) && hasWriter(sc, depth+1) {
 						containsWriter[f] = true
 						return true
 					}
@@ -927,8 +927,8 @@ func checkC11(p *core.Program, r *core.Report) {
 				isWriter := false
 				if o, _ := sc.Object().(*types.Func); o != nil && writerObjs[o.Origin()] {
 					isWriter = true
-				} else if len(sc.Blocks) > 0 && sc.Pkg == act.Pkg && hasWriter(sc, 0) {
-					isWriter = true // a helper of package main that contains a writer call (saveSystem(system, path))
+				} else if len(sc.Blocks) > 0 && core.InRepo(pkgPathOf(sc)) && hasWriter(sc, 0) {
+					isWriter = true // an in-repo helper that contains a writer call (saveSystem(system, path))
 				}
 				if isWriter {
 					wsites = append(wsites, wsite{b})
@@ -936,7 +936,8 @@ func checkC11(p *core.Program, r *core.Report) {
 			}
 		}
 		if len(wsites) == 0 {
-			continue // reported by the floor / the per-site rule
+			r.Violation("O11.3", "main.cmd:"+c.Name+": every success path writes the system", p.Pos(c.Lit.Pos()), "no ProvingSystem writer (WriteTo / WriteRawTo) is reachable from the command: what it leaves at --output is not written by the code whose section sequence is compared with the reader's")
+			continue
 		}
 		var bad []string
 		nSucc := 0
